@@ -25,7 +25,7 @@ META = {
  "C11_15": ("QDepthwiseConv2D.call no longer forwards dilation_rate", "dilation_rate != 1"),
  "C11_16": ("QGRUCell.call fused path: reset_after guard requires use_bias", "implementation=2, reset_after=True, use_bias=False"),
  "C12_15": ("model_quantize Bidirectional branch writes name keys into the caller's quantizer_config", "any model containing a Bidirectional layer"),
- "C12_16": ("model_quantize weight transfer by qmodel.set_weights(model.get_weights())", "transfer_weights=True and an Activation converted to QAdaptiveActivation - NOT detected: no driver converts to QAdaptiveActivation"),
+ "C12_16": ("model_quantize weight transfer by qmodel.set_weights(model.get_weights())", "transfer_weights=True and an Activation converted to QAdaptiveActivation (first missed; detected since the adaptive conversion cases were added)"),
  "C13_15": ("QAdaptiveActivation.get_config wraps current_step / quantization_delay / relu_neg_slope in int() (patch rebased onto the repaired get_config)", "relu_neg_slope a fraction"),
  "C13_16": ("QLSTM.recurrent_quantizer_internal returns the cell's kernel quantizer", "QLSTM whose kernel and recurrent quantizers differ"),
  "C14_15": ("add_bn_fusing_weights applies the inverse quantizer to rsqrt(var+eps) before multiplying by gamma", "QBatchNormalization(inverse_quantizer=...) with scale"),
